@@ -90,7 +90,31 @@ theorem C12_failed_justified (hwf : WF C.wb) (hl : Local C.wb f) (hlg : LocalG C
     ∃ j env e', C.g j env = .error e' ∧ (e = e' ∨ e = e'.nested) := by
   have hh : Hyp C f (fun _ => True) :=
     ⟨hwf, hl, hlg, hag, fun _ _ _ _ => trivial, fun _ _ _ _ => .inr trivial, fun _ h => (h trivial).elim⟩
+  obtain ⟨j, s, e', _, _, hj, he⟩ :=
+    ((BInv.init (C := C) (f := f) (Bad := fun _ => True) outs).iter hh (fuelFor C outs)).why x e hx
+  exact ⟨j, _, e', hj, he⟩
+
+/-- "cells it cannot evaluate are reported under exceptions or not-implemented" — the converse with the BLAME: every
+    cell `x` listed under exceptions / not-implemented with class `e` has the cause at or below itself: a formula or
+    range node `j` with `Reach x j` (`j = x`: its own formula; otherwise one of its transitive precedents) whose
+    compiled formula raises, on the values `valueOf s` that some state `s` of the cell map reached during the walk
+    gives its precedents, an exception whose class is `e` itself or becomes `e` when it travels through a dependant
+    (`Fail.nested`).  No hypothesis on the stored results. -/
+theorem C12_failed_blame (hwf : WF C.wb) (hl : Local C.wb f) (hlg : LocalG C) (hag : Agree C f)
+    (outs : List Nat) (x : Nat) (e : Fail) (hx : (x, e) ∈ (validate C outs).rep.failed) :
+    ∃ j s e', Reach C.wb x j ∧ C.wb.kind j ≠ .input ∧ C.g j (valueOf C s) = .error e' ∧
+      (e = e' ∨ e = e'.nested) := by
+  have hh : Hyp C f (fun _ => True) :=
+    ⟨hwf, hl, hlg, hag, fun _ _ _ _ => trivial, fun _ _ _ _ => .inr trivial, fun _ h => (h trivial).elim⟩
   exact ((BInv.init (C := C) (f := f) (Bad := fun _ => True) outs).iter hh (fuelFor C outs)).why x e hx
+
+/-- on a workbook in which only the formulas in `R` can raise: every listed cell is in `R` or depends on one. -/
+theorem C12_failed_blame_set (hwf : WF C.wb) (hl : Local C.wb f) (hlg : LocalG C) (hag : Agree C f)
+    (R : Nat → Prop) (hR : ∀ j env e, C.g j env = .error e → R j)
+    (outs : List Nat) (x : Nat) (e : Fail) (hx : (x, e) ∈ (validate C outs).rep.failed) :
+    ∃ j, R j ∧ Reach C.wb x j := by
+  obtain ⟨j, s, e', hr, _, hj, _⟩ := C12_failed_blame hwf hl hlg hag outs x e hx
+  exact ⟨j, hR j _ e' hj, hr⟩
 
 /-- "On a workbook file whose stored formula results are what its formulas produce, validate_calcs returns an empty
     report" (a workbook pycel can evaluate: `Total`). -/
